@@ -170,5 +170,39 @@ impl PartialReply {
 //@end
 }
 
+// ---------- ServerMsg::from_xml: the top-level loop that every hello / reply parse goes through ----------
+pub struct InputStr;
+impl InputStr { #[verifier::external_body] pub fn as_ref(&self) -> (r: &str) { unimplemented!() } }
+impl NsReader {
+    // NsReader::from_str: a tokenizer over the message text; the events it will yield are arbitrary (ghost `remaining`)
+    #[verifier::external_body]
+    pub fn from_str(s: &str) -> (r: NsReader) { unimplemented!() }
+    #[verifier::external_body]
+    pub fn trim_text(&mut self, t: bool) -> (r: u8)
+        ensures final(self).remaining@ == old(self).remaining@, final(self).log@ == old(self).log@
+    { unimplemented!() }
+}
+// the message type's own reader (ReadXml::read_xml): ASSUMED to consume events or fail
+pub trait MsgReadXml: Sized {
+    fn read_xml(reader: &mut NsReader, start: &BytesStart) -> (r: Result<Self, ReadError>)
+        ensures r is Ok ==> final(reader).remaining@.len() <= old(reader).remaining@.len();
+}
+pub const MSG_TAG_NS: Namespace = Namespace { id: 1 };
+#[verifier::external_body]
+pub fn msg_tag_name() -> (r: &'static [u8]) { unimplemented!() }
+#[verifier::external_body]
+pub fn msg_tag_str() -> (r: &'static str) { unimplemented!() }
+
+//@extract id=server_msg_from_xml file=netconf/src/message/mod.rs impl=/trait ServerMsg/ fn=from_xml rules=R1,R2,R7,R15,R17 r7map=option
+//@+ sub=/Self::TAG_NS=>MSG_TAG_NS;;Self::TAG_NAME.as_bytes()=>msg_tag_name();;&*txt == MARKER=>txt.is_marker();;Self::TAG_NAME=>msg_tag_str();;tag.local_name().as_ref() == msg_tag_name()=>bytes_eq(tag.local_name().as_ref(), msg_tag_name());;Self::read_xml=>M::read_xml/
+//@sig pub fn from_xml<M: MsgReadXml>(input: InputStr) -> (res: Result<M, ReadError>)
+//@contract
+        // C14: whatever events the tokenizer yields for the server's bytes, the top-level loop terminates and returns Ok or Err
+        ensures true,
+//@loop 1
+            invariant true,
+            decreases reader.remaining@.len() + (if this is None { 1nat } else { 0nat }) as int,       // OBL:C14.from_xml.terminates
+//@end
+
 } // verus!
 fn main() {}
